@@ -68,6 +68,20 @@ def type_info(t):
     return TYPES.get(t)
 
 
+def pointee_size(ptr_type):
+    t = ptr_type.rstrip()
+    t = t[:-1].rstrip() if t.endswith("*") else t
+    t = t.replace("const", "").replace("volatile", "").strip()
+    if t.endswith("*"):
+        return 8
+    if t in ("char", "void", "unsigned char", "signed char", "uint8_t", "int8_t"):
+        return 1
+    ti = TYPES.get(t)
+    if ti:
+        return max(1, ti[0] // 8)
+    return 8
+
+
 def wrap(v, t):
     ti = type_info(t)
     if ti is None:
@@ -150,6 +164,14 @@ def ev(fn, n, atom=None, depth=0):
                 # pointer comparison: compare the 64-bit patterns (constants like (T*)-1 fold to -1)
                 a &= (1 << 64) - 1
                 b &= (1 << 64) - 1
+        if op in ("+", "-"):
+            ta, tb = (n.kids[0].t or "").rstrip(), (n.kids[1].t or "").rstrip()
+            if ta.endswith("*") and not tb.endswith("*"):
+                b *= pointee_size(ta)          # pointer arithmetic is scaled by the pointee size
+            elif tb.endswith("*") and not ta.endswith("*") and op == "+":
+                a *= pointee_size(tb)
+            elif ta.endswith("*") and tb.endswith("*") and op == "-":
+                return (a - b) // max(1, pointee_size(ta))
         if op == "+":
             return wrap(a + b, n.t)
         if op == "-":
